@@ -187,6 +187,10 @@ pub enum Case {
     Linked { k: usize, source_kind: u8, draw: u64 },
     /// worst-case family at capacity k: fresh keys only, alternating (mode 0) or all put (mode 1)
     Family { k: usize, mode: u8, draw: u64 },
+    /// fresh-key writes by a thread that builds a cache handle between any two of them: 0 its own handle again
+    /// (same directory and capacity), 1 a plain handle on an unrelated directory, 2 a sharded one, 3 a stacked
+    /// cache through the builder.  Building a handle is not a write and may not use up, or restart, the window.
+    Rebuilt { k: usize, mode: u8, draw: u64 },
 }
 
 impl Case {
@@ -200,6 +204,7 @@ impl Case {
             Case::Spelled { k, spelling, draw } => json!({"kind": "spelled", "k": k.to_string(), "spelling": spelling, "directory_named": SPELLINGS[*spelling], "draw": draw.to_string()}),
             Case::Linked { k, source_kind, draw } => json!({"kind": "linked", "k": k.to_string(), "source_kind": source_kind, "draw": draw.to_string()}),
             Case::Family { k, mode, draw } => json!({"kind": "family", "k": k.to_string(), "mode": mode, "draw": draw.to_string()}),
+            Case::Rebuilt { k, mode, draw } => json!({"kind": "rebuilt", "k": k.to_string(), "mode": mode, "draw": draw.to_string()}),
         }
     }
     fn from_json(v: &Value) -> Case {
@@ -217,6 +222,7 @@ impl Case {
             "broken_temp" => Case::BrokenTemp { k, writes: v["writes"].as_u64().unwrap() as u32, draw: num(&v["draw"]) },
             "linked" => Case::Linked { k, source_kind: v["source_kind"].as_u64().unwrap() as u8, draw: num(&v["draw"]) },
             "spelled" => Case::Spelled { k, spelling: v["spelling"].as_u64().unwrap() as usize, draw: num(&v["draw"]) },
+            "rebuilt" => Case::Rebuilt { k, mode: v["mode"].as_u64().unwrap() as u8, draw: num(&v["draw"]) },
             "huge" => Case::Huge { k, draw: num(&v["draw"]), writes: v["writes"].as_u64().unwrap() as u32 },
             _ => Case::Family { k, mode: v["mode"].as_u64().unwrap() as u8, draw: num(&v["draw"]) },
         }
@@ -445,6 +451,61 @@ pub fn run_case(case: &Case, rep: &mut Report) -> Vec<(String, String)> {
                 }
             }
         }
+        Case::Rebuilt { k, mode, draw } => {
+            let p = period(*k as u128) as usize;
+            let mut w = Writer::new(&sc, *k);
+            verif_hooks::script_trigger_draws(&[], Some(*draw));
+            verif_hooks::set_trigger_counter(0);
+            let mut since = 0usize;
+            let mut others: Vec<Box<dyn std::any::Any>> = Vec::new();
+            for i in 0..(3 * p + 3) {
+                if i > 0 {
+                    let elsewhere = sc.path(&format!("elsewhere{}", i));
+                    let (dir, k) = (w.dir.clone(), *k);
+                    let (built, _t) = run::as_participant(0, 1000 + i as u32, || -> Box<dyn std::any::Any> {
+                        match *mode {
+                            0 => Box::new(kismet_cache::plain::Cache::new(dir, k)),
+                            1 => Box::new(kismet_cache::plain::Cache::new(elsewhere, 7)),
+                            2 => Box::new(kismet_cache::sharded::Cache::new(elsewhere, 4, 40)),
+                            _ => Box::new(kismet_cache::CacheBuilder::new().writer(&elsewhere, 1, 9).plain_reader(&dir).take().build()),
+                        }
+                    });
+                    match built {
+                        Ok(b) => {
+                            if *mode == 0 {
+                                w.cache = *b.downcast::<kismet_cache::plain::Cache>().unwrap();
+                            } else {
+                                others.push(b); // stays alive, as a long-lived handle would
+                            }
+                        }
+                        Err(pmsg) => {
+                            bad.push(("panic".into(), format!("building a handle panicked: {}", pmsg)));
+                            break;
+                        }
+                    }
+                }
+                let (r, ran, _before, trace) = w.write(&format!("key{}", i), i % 2 == 0);
+                rep.transitions += trace.len() as u64;
+                if !matches!(r, Ok(Ok(()))) {
+                    bad.push(("error".into(), format!("write {} failed: {:?}", i, r)));
+                    break;
+                }
+                if ran {
+                    since = 0;
+                } else {
+                    since += 1;
+                    if since >= p {
+                        bad.push(("window-exceeded".into(), format!("capacity {}, a handle built between writes (mode {}): {} consecutive writes without maintenance (window {})", k, mode, since, p)));
+                        break;
+                    }
+                }
+                let n = w.file_count();
+                if n > k + p {
+                    bad.push(("too-many-files".into(), format!("capacity {}: {} files after write {} (bound {})", k, n, i, k + p)));
+                    break;
+                }
+            }
+        }
         Case::Huge { k, draw, writes } => {
             let s = scale(*k as u128);
             let mut w = Writer::new(&sc, *k);
@@ -510,7 +571,7 @@ pub fn run(tier: Tier, shard: Shard, rep: &mut Report) {
          not a write and must not use up the window); fresh-key writes while .kismet_temp cannot be listed (it is a regular file): \
          the firing writes report the error but the directory is still pruned on schedule; fresh-key writes for capacities 0..=12 with the \
          directory named in 8 ways (absolute, relative, '.', the empty path, './cache/', 'cache//', 'cache/.', '../cache'); fresh-key writes for capacities 0..=12 whose values \
-         are symbolic links (to a file that stays, to a file deleted after the write, to a directory); capacities 2^63, 3*2^62, usize::MAX-2..=usize::MAX: small draws fire at the first write, 2^64-1 with 1000 writes never \
+         are symbolic links (to a file that stays, to a file deleted after the write, to a directory); capacities 0..=40 with a cache handle built by the writing thread between any two writes (its own again, an unrelated plain, sharded or stacked one) x 3 draws; capacities 2^63, 3*2^62, usize::MAX-2..=usize::MAX: small draws fire at the first write, 2^64-1 with 1000 writes never \
          panics. Every case is distinct. (4) One writer at capacity 2, 3, 5 over an over-full directory racing with an outsider that \
          deletes the oldest, a middle or the newest entry, or with a reader that looks every entry up (all schedules with <= 2 preemptions): the bound holds after the write.",
         kmax, smallk, seqlen, kmax
@@ -590,6 +651,14 @@ pub fn run(tier: Tier, shard: Shard, rep: &mut Report) {
         for mode in 0..2u8 {
             for draw in [u64::MAX, (scale(k as u128) as u64).saturating_mul(period(k as u128) as u64 - 1).saturating_add(1)] {
                 take(Case::Family { k, mode, draw }, rep);
+            }
+        }
+    }
+    // a handle built between any two writes
+    for k in 0..=kmax.min(40) {
+        for mode in 0..4u8 {
+            for draw in [u64::MAX, 1u64, (scale(k as u128) as u64).saturating_mul((period(k as u128) as u64).saturating_sub(1)).saturating_add(1)] {
+                take(Case::Rebuilt { k, mode, draw }, rep);
             }
         }
     }
